@@ -24,28 +24,28 @@ claimed = {
    'For every reachable tree state: Min, Max, Ceil(p) for every universe key and absent probe, then every sequence of Forward/Backward steps until stepping off an end, Get compared with the position in the sorted key list; SeekIter(p) for every probe with early stop at every position. Branch factors 2,3,4,16, user keys with adversarial layers, empty and emptied trees.',
    'Finite universes; behaviour after stepping off an end is not judged (not specified).', 'DESIGN.md C10'),
  'C15': ('W', 'model_checking', 'exhaustive enumeration of all ordered pairs of persisted versions on cache-less recording stores; oracle = distinct Load names vs 2*D+2',
-   'For all ordered pairs of all versions of the universe, the distinct names passed to Persist.Load during DiffIter and DiffLinks are counted and compared with 2*D+2 (D from the reference walker); identical versions must load nothing. Also: the new side taken from a writer with a NodeCache, StartDiff/NextEntry, and a tall-tree family (bf 2, 4 200 keys; every high-layer key deleted x a second change on a grid and at every other high-layer key) where the bound is tight.',
+   'For all ordered pairs of all versions of the universe, the distinct names passed to Persist.Load during DiffIter and DiffLinks are counted and compared with 2*D+2 (D from the reference walker); identical versions must load nothing. Also: the new side taken from a writer with a NodeCache, StartDiff/NextEntry, and a tall-tree family (bf 2, 4 200 keys; every high-layer key deleted x a second change on a grid and at every other high-layer key) where the bound is tight; the base is also compared with each of those versions (pass-through node on one side only).',
    'Finite universes; thorough adds larger seeded trees with single/two-key modifications.', 'DESIGN.md C15'),
  'C03': ('F+S', 'model_checking', 'engine F (every failing subset of the writes, by node name, with retries) over every pre-state of the closure, and engine S: stateless DFS over all interleavings of MakeRoot goroutines up to a preemption bound on an instrumented copy of package mast under a cooperative scheduler',
-   'Part A: for every reachable tree state that has something to write, every non-empty subset of its Store calls fails (<=4 writes; singles and pairs above), followed by a clean retry, a retry failing again, and a third attempt: an error is reported iff a write failed, the tree still answers Get/Size and accepts an insert, a later success implies every reachable node is in the store under its own name, and a cache shared with a second store never causes a write to be skipped. Part B: one representative tree per number of dirty nodes and height; all schedules of caller, dispatcher and workers with <=2 preemptions (<=3 writes) / <=1 / 0, each with no fault and with each single write failing; at the instant MakeRoot returns nil every reachable node must already be in the store; no deadlock, no panic. Part C (engine Q): the unmodified package inside a go1.26 testing/synctest bubble, every completion order of the parked Store calls x each single failing write (<=4 dirty nodes), as a cross-check of the instrumented runs. Also: a 63-dirty-node tree (the 40-slot gate saturates) with every single write failing, two stores sharing one cache (distinct prefixes, prefixes differing only by slashes, and the in-memory stores of the library itself).',
+   'Part A: for every reachable tree state that has something to write, every non-empty subset of its Store calls fails (<=4 writes; singles and pairs above), followed by a clean retry, a retry failing again, and a third attempt: an error is reported iff a write failed, the tree still answers Get/Size and accepts an insert, a later success implies every reachable node is in the store under its own name, and a cache shared with a second store never causes a write to be skipped. Part B: one representative tree per number of dirty nodes and height; all schedules of caller, dispatcher and workers with <=2 preemptions (<=3 writes) / <=1 / 0, each with no fault and with each single write failing; at the instant MakeRoot returns nil every reachable node must already be in the store; no deadlock, no panic. Part C (engine Q): the unmodified package inside a go1.26 testing/synctest bubble, every completion order of the parked Store calls x each single failing write (<=4 dirty nodes), as a cross-check of the instrumented runs. Also: a 63-dirty-node tree (the 40-slot gate saturates) with every single write failing, two stores sharing one cache (distinct prefixes, prefixes differing only by slashes, and the in-memory stores of the library itself). Part D (engine W): failing MakeRoot calls - a class of Store calls chosen by node name, or the i-th Marshal call - are transitions of the single-tree alphabet, explored to closure (cache-less) / depth 6 (cached): a failed call changes nothing the tree answers, an error is reported iff a write failed, and every later successful root is complete.',
    'Sequential consistency; >2 preemptions and >5 concurrent writes outside the bound (the 40-slot gate never saturates in the explored scenarios); the instrumenter is validated by running the repository tests on the instrumented package in pass-through mode.', 'DESIGN.md 3.5, 3.7, C03'),
  'C11': ('S', 'model_checking', 'engine S: stateless DFS over all interleavings (<=2 preemptions) of 2-3 threads, each with its own tree over a shared store and cache, at environment-call and sync-operation granularity on the instrumented package; differential oracle; plus a free-running -race pass',
    'Every pair of single operations (Get/Insert/Delete on colliding keys, Iter, MakeRoot, Clone, LoadMast) and insert+MakeRoot against every operation, for trees obtained by LoadMast of one root through a shared cache or by Clone, on three bases (plain, height-2 user keys, evicting cache): in every schedule each thread must observe exactly what it observes alone and the base root must still reload to its contents. Bases include a branch-factor-4 tree whose leaves have spare slice capacity, struct keys (every user-marshaler call is a scheduling point), an evicting cache and a cache that lost its entries; the return of NodeCache.Add is a scheduling point (publication). The same thread bodies run ~30k times free-running under the Go race detector.',
    'Scheduler-level exploration assumes sequential consistency and atomicity between scheduling points; the race pass samples (it is not the deciding step); >2 preemptions, >3 threads outside the bound.', 'DESIGN.md 3.7, C11'),
  'C12': ('F', 'fault_enumeration', 'engine F: for every pre-state of the closure and every operation, a 0-deviation execution counts the environment calls, then one execution per Load / KeyCompare / Marshal call index (pairs in the thorough tier) with that answer replaced by an error',
-   'Insert/Delete of every key and value, Get, Iter, SeekIter, DiffIter, DiffLinks, Clone and cursor navigation, from every reachable tree state (all mixes of persisted, loaded and dirty nodes): whenever the call returns an error the contents, Size and Height must be what they were, and the same call retried fault-free (a cursor step: on the same cursor) must behave like the fault-free execution. Includes height-3 seeded trees and slice-valued entries.',
+   'Insert/Delete of every key and value, Get, Iter, SeekIter, DiffIter, DiffLinks, Clone and cursor navigation, from every reachable tree state (all mixes of persisted, loaded and dirty nodes): whenever the call returns an error the contents, Size and Height must be what they were, and the same call retried fault-free (a cursor step: on the same cursor) must behave like the fault-free execution (a diff cursor: StartDiff/NextEntry walked to the end with the failing NextEntry retried on the same cursor). Includes height-3 seeded trees, slice-valued entries and evicting caches.',
    'Finite universes; panics under injected faults are counted but not judged (the property speaks of returned errors).', 'DESIGN.md 3.5, C12'),
  'C14': ('enum', 'exploration', 'exhaustive enumeration of nodes / layer inputs / key pairs with a three-way comparison: implementation vs independent re-implementation vs frozen golden vectors',
-   'Roots of every version of 180 configurations (all 81 layer assignments of 4 user keys, all built-in key types, both formats), DefaultLayer over integers -300..300, powers/multiples of bf up to 2^63 and 500 strings x 19 branch factors x 14 key types, DefaultKeyCompare over all pairs, and the defaults of new trees are compared with an independent encoder/hash/layer/order implementation and with golden vectors generated once and cross-checked against the pinned commit.',
+   'Roots of every version of 180 configurations (all 81 layer assignments of 4 user keys, all built-in key types, both formats), DefaultLayer over integers -300..300, powers/multiples of bf up to 2^63 and 500 strings x 19 branch factors x 14 key types, DefaultKeyCompare over all pairs, and the defaults of new trees are compared with an independent encoder/hash/layer/order implementation and with golden vectors generated once and cross-checked against the pinned commit. Failed MakeRoot calls (every Marshal index, every Store class) are interleaved with the computation of the vectors: bytes must not depend on what an earlier failed call left behind.',
    'Go stdlib crc64/json and x/crypto BLAKE2b are the trusted base; "every release and host" is approximated by this tree on this host against frozen vectors.', 'DESIGN.md C14'),
  'C17': ('X', 'fault_enumeration', 'engine X: crash-point enumeration - one child process per (node size, byte offset, mode) runs the real file store under RLIMIT_FSIZE so the kernel cuts the write at exactly that byte (process killed by SIGXFSZ, or EFBIG returned), then restart + Load + re-Store + Load',
    'Every byte offset 0..len for node sizes 1, 33, 4097 (10000 and strided 70000 in the thorough tier), both crash and I/O-error mode: the first Load after the cut must be not-found or the complete bytes, a re-Store must make the node complete, an acknowledged Store must be complete; plus the same Store retried in the same process after the I/O error cleared.',
    'No power-loss / page-cache model (the property does not ask for one); RLIMIT_FSIZE semantics of the kernel.', 'DESIGN.md 3 (engine X), C17'),
  'C18': ('enum', 'model_checking', 'explicit-state BFS to closure over call histories of one backend object (Store/Load of three names plus a never-written one; on S3 also each call with its client request answered by an error or a body failing mid-read) against a map model, successors by replay on a fresh backend; plus exhaustive enumeration of backend x name x payload for a fixed call sequence, and all interleavings of two Stores and a Load (engine S)',
-   'In-memory, file and S3 (fake S3Interface returning the SDK error types, three bucket/prefix pairs) backends. BFS: every reachable combination of (stored, store attempted/failed, load attempted/failed) per name, each call judged against the model and, in every new state, every name loaded and the S3 object map compared with the model (exact bucket/prefix+name addressing, exactly one client request per call). Enumeration: 31 names x 5 payloads (empty, binary, 1 MiB): round trip, missing names error, double store, two names. Engine S: Store || Store || Load of one name, preemption bound 3, in-memory and S3.',
-   'Real S3 semantics are represented by the fake client; the file backend has no fault alphabet here (its cut-short writes are C17).', 'DESIGN.md C18'),
+   'In-memory, file and S3 (fake S3Interface returning the SDK error types, three bucket/prefix pairs) backends. BFS: every reachable combination of (stored, store attempted/failed, load attempted/failed) per name, each call judged against the model and, in every new state, every name loaded and the S3 object map compared with the model (exact bucket/prefix+name addressing, exactly one client request per call). Enumeration: 31 names x 5 payloads (empty, binary, 1 MiB): round trip, missing names error, double store, two names. Engine S: Store || Store || Load of one name, preemption bound 3, on the in-memory store, on S3 and on the file backend (its package os replaced, at build time, by an in-memory file system whose calls are scheduling points; a Write is two); every writer loads right after its Store returned nil.',
+   'Real S3 semantics are represented by the fake client; the file backend has no fault alphabet here (its cut-short writes are C17); its concurrent exploration runs on a model of the file system (create/open/write/rename/link/remove/chmod semantics of POSIX as far as the package uses them), and is reported as not explored if the package uses an os facility the model lacks.', 'DESIGN.md C18'),
  'C19': ('enum', 'exploration', 'exhaustive enumeration of (persisted version x perturbation); the reference decoder/order/layer functions decide which clause of the property holds, only those cases are judged',
-   'Every version of six universes x {unknown formats, missing top node, every proper prefix of the top node, every mismatched (keys,values,links) framing, rearranged/duplicated keys, reversed loader order, Height 0..H+3, BranchFactor 2/3/4/5/16}: LoadMast must return an error (not panic, not a tree), also when the top node already sits in a shared node cache.',
+   'Every version of six universes x {unknown formats, missing top node, every proper prefix of the top node, every mismatched (keys,values,links) framing, rearranged/duplicated keys, reversed loader order, Height 0..H+3, BranchFactor 2/3/4/5/16}: LoadMast must return an error (not panic, not a tree), also when the top node already sits in a shared node cache (put there by an earlier load, or by the writer's own flush).',
    'Perturbations for which no clause of the property holds are not judged.', 'DESIGN.md C19'),
  'C04': ('W', 'model_checking', 'explicit-state BFS to closure on the real implementation; oracle = independently built canonical Merkle search tree, encoded and hashed independently',
    'At every MakeRoot transition of every reachable state the returned Root (link, height, size) is compared with the root of the canonical tree that the reference builder constructs from the entries the tree actually holds (layers and height rule re-derived from the definition, independent codec and BLAKE2b). All histories of the alphabet ending in the same contents are thereby compared with each other and with the reference.',
@@ -54,7 +54,7 @@ claimed = {
    'MakeRoot+LoadMast is a transition available in every state, so reload happens at every reachable state and the reloaded tree keeps being mutated, persisted and reloaded; after each reload entries (per-key Get), Size, Height, BranchFactor and NodeFormat are compared with the source tree. Key/value types, both formats, default JSON and a custom tagged marshaler with registered types, cache none/big.',
    'Finite universes; configurations whose encoding does not round-trip (v1.1.5binary with KeysLike=nil) are out of the property and not run.', 'DESIGN.md C05'),
  'C08': ('W', 'model_checking', 'explicit-state BFS; oracle on every Persist.Store call with an independent hash and codec',
-   'Every Store call issued on every transition of the explored state spaces is checked: name == base64url(BLAKE2b-256(bytes)) by x/crypto (mast uses blake2b-simd), bytes decode and re-encode byte-identically with the independent codec (no capacity/flag/link-kind leakage), name->bytes and root-name->contents tables single-valued across all histories.',
+   'Every Store call issued on every transition of the explored state spaces is checked: name == base64url(BLAKE2b-256(bytes)) by x/crypto (mast uses blake2b-simd), bytes decode and re-encode byte-identically with the independent codec (no capacity/flag/link-kind leakage), name->bytes and root-name->contents tables single-valued across all histories. Histories include MakeRoot calls that fail half-way (a Marshal call or a class of Store calls fails): what is written afterwards must still be the canonical encoding of its entries.',
    'x/crypto BLAKE2b and encoding/json trusted; finite universes.', 'DESIGN.md C08'),
  'C09': ('W', 'model_checking', 'explicit-state BFS; every persisted version decoded from the store by the independent codec and checked against the shape invariants',
    'For every root produced on every MakeRoot transition, all reachable nodes are decoded from the recording store and the invariants of the property (levels, layers per level, strict order, ranges, link slots, no entry-less node except pass-through, recorded size) are evaluated relative to the recorded height; includes adversarial layer assignments through a user Key type and delete-heavy histories.',
